@@ -5,11 +5,9 @@ CONSTANT DropKind = "poseidon"
 CONSTANT DropIdx = 3
 CONSTANT Cases <- CasesPoseidon
 CONSTANT Sel = {}
+CONSTANT DegShift = 0
 INIT InitRows
 NEXT NextRows
 INVARIANT Satisfied
 INVARIANT PinnedInv
-INVARIANT CountInv
-INVARIANT LayoutInv
-INVARIANT UniqueInv
 CHECK_DEADLOCK FALSE
